@@ -8,10 +8,10 @@ export GOFLAGS=-mod=mod GOPROXY=off GOSUMDB=off GOTOOLCHAIN=local
 export GOCACHE=/verif/.build/gocache
 export CGO_ENABLED=${CGO_ENABLED:-1}
 mkdir -p .build/bin
-if [ ! -x .build/bin/overlaygen ]; then
-  flock .build/overlaygen.lock go build -o .build/bin/overlaygen ./cmd/overlaygen
-fi
-if ! .build/bin/overlaygen -conf overlay.base.conf,cmd/c01cli/overlay.conf -out .build/overlay-c01cli > .build/overlay-c01cli.log 2>&1; then
+if ! flock .build/overlaygen.lock sh -c '
+  [ -x .build/bin/overlaygen ] || go build -o .build/bin/overlaygen ./cmd/overlaygen || exit 3
+  .build/bin/overlaygen -conf overlay.base.conf,cmd/c01cli/overlay.conf -out .build/overlay-c01cli > .build/overlay-c01cli.log 2>&1
+'; then
   echo "BUILD-FAILED overlay generation for c01cli"; cat .build/overlay-c01cli.log; exit 2
 fi
 OVERLAY=.build/overlay-c01cli/overlay.json
